@@ -63,6 +63,26 @@ func c05Probes(r *simnet.Rng, s *spec.RunSpec, n int) {
 		}
 		s.Attack.Probes = append(s.Attack.Probes, p)
 	}
+	if r.Bool(0.35) {
+		// the server listens on a second port: copies (exact, or with a bit flipped in the
+		// unauthenticated padding tail) of a handshake it accepted on one port go to the other
+		sib := 7000 + r.Intn(1000)
+		if tr == "tcp" {
+			s.Server.ExtraTCPPorts = []int{sib}
+		} else {
+			s.Server.ExtraUDPPorts = []int{sib}
+		}
+		for i, k := 0, 2+r.Intn(3); i < k; i++ {
+			p := spec.Probe{Kind: []string{"bitflip", "replay-first"}[r.Intn(2)], Transport: tr, IP: attackerIP(200 + i), AtUs: int64(r.Pick(1000, 100000, 2000000)), Source: r.Intn(len(s.Clients)), Seed: r.U64(), Port: sib, HoldUs: 2000000}
+			if p.Kind == "bitflip" {
+				p.Arg = -(1 + r.Intn(24))
+			}
+			if r.Bool(0.5) {
+				p.AfterEnd, p.AfterEndDelayUs = true, int64(r.Pick(0, 1000000, 7000000))
+			}
+			s.Attack.Probes = append(s.Attack.Probes, p)
+		}
+	}
 	if tr == "udp" && r.Bool(0.3) {
 		// on-path attacker: swallows the first datagram of client 0 and sends proper prefixes of it
 		s.Net.Rules = append(s.Net.Rules, spec.DgramRule{Client: 0, Dir: 0, Index: 0, Kind: "drop"})
